@@ -965,3 +965,33 @@ def _coq_eval_blocks(pid, header, blocks, tag="cases", per_file=8, timeout=900):
             outs.append(p[:idx].strip() if idx >= 0 else p.strip())
     _sh.rmtree(d, ignore_errors=True)
     return outs
+
+
+MY_COQ_FILES = ("Spec/Shapes.v", "Model/Support.v", "Model/Aabb.v", "Model/Contain.v", "Model/ShapesRun.v", "Proofs/ShapesTac.v",
+                "Proofs/SupportA.v", "Proofs/SupportB.v", "Proofs/AabbProofs.v", "Proofs/AabbProofsB.v", "Proofs/ContainProofs.v",
+                "Proofs/ContainCross.v", "Proofs/MeshClimb.v", "Proofs/MeshClimbGen.v", "Checker/ShapesCert.v", "Checker/ShapesBridge.v",
+                "Checker/ShapesMeshCone.v", "Props/C03.v", "Props/C04.v", "Props/C13.v", "Base/RVec2.v")
+
+
+def check_proofs_retry(R, files, build_targets):
+    """R.check_proofs, repeated (up to twice, after a pause) when the BUILD failed for a reason that is
+    not in this property's own files: another agent rebuilding / editing a shared library at the same
+    moment (inconsistent assumptions, a file of theirs that does not compile right now).  A failure in
+    one of our own files is reported at once."""
+    import time as _time
+    for attempt in range(3):
+        R.check_proofs(files, build_targets=build_targets)
+        broken = [x for x in R.proof_broken if "coq build failed" in x or "does not check" in x]
+        if not broken:
+            return
+        log = str(R.cov.get("build_log_tail", "")) + str(R.cov.get("props_log_tail", ""))
+        transient = "inconsistent assumptions" in log
+        foreign = any("coq build failed" in b and not any(f in b for f in MY_COQ_FILES) for b in broken)
+        if not (transient or foreign) or attempt == 2:
+            return
+        R.notes.append(dict(build_retry=broken[0], reason="concurrent rebuild of a shared library / failure outside this property's files"))
+        for x in broken:
+            R.proof_broken.remove(x)
+        R.cov.pop("build_log_tail", None)
+        R.cov.pop("props_log_tail", None)
+        _time.sleep(40 + 40 * attempt)
